@@ -175,8 +175,8 @@ struct SlabHarness : HarnessBase {
 	std::map<size_t, int> slabs_of;             // class size -> slabs mapped so far
 	std::map<uintptr_t, long> region_pages;     // region base -> pages credited
 
-	SlabHarness(int L_, size_t skew_, int fail_budget_, std::vector<size_t> sizes_, bool reentrant_ = false) : L(L_), skew(skew_), fail_budget(fail_budget_), sizes(std::move(sizes_)) {
-		reentrant = reentrant_;
+	SlabHarness(int L_, size_t skew_, int fail_budget_, std::vector<size_t> sizes_, bool reentrant_ = false, bool facade_ = false) : L(L_), skew(skew_), fail_budget(fail_budget_), sizes(std::move(sizes_)) {
+		reentrant = reentrant_; facade = facade_;
 		if(!arena_base) {
 			arena_base = (unsigned char *)mmap(nullptr, ARENA_SIZE + (8u << 20) + SLACK, PROT_READ | PROT_WRITE, MAP_PRIVATE | MAP_ANONYMOUS | MAP_NORESERVE, -1, 0);
 			arena_base = (unsigned char *)(((uintptr_t)arena_base + (4u << 20) - 1) & ~(uintptr_t)((4u << 20) - 1));
@@ -195,6 +195,13 @@ struct SlabHarness : HarnessBase {
 	}
 	size_t exempt = (size_t)-1;   // index of the block a realloc is entitled to release
 	Pool &pool() { return *reinterpret_cast<Pool *>(pool_store); }
+	// the calls of an instance can be routed through frg::slab_allocator, the handle type users pass to containers
+	bool facade = false;
+	void *p_allocate(size_t n) { if(facade) { frg::slab_allocator<Policy, CountingMutex> f(&pool()); return f.allocate(n); } return pool().allocate(n); }
+	void p_free(void *p) { if(facade) { frg::slab_allocator<Policy, CountingMutex> f(&pool()); f.free(p); return; } pool().free(p); }
+	void p_deallocate(void *p, size_t n) { if(facade) { frg::slab_allocator<Policy, CountingMutex> f(&pool()); f.deallocate(p, n); return; } pool().deallocate(p, n); }
+	void *p_realloc(void *p, size_t n) { if(facade) { frg::slab_allocator<Policy, CountingMutex> f(&pool()); return f.reallocate(p, n); } return pool().realloc(p, n); }
+	size_t p_get_size(void *p) { if(facade) { frg::slab_allocator<Policy, CountingMutex> f(&pool()); return f.get_size(p); } return pool().get_size(p); }
 
 	void fresh_world() {
 #if VERIF_ASAN
@@ -286,7 +293,7 @@ struct SlabHarness : HarnessBase {
 	// validity of a freshly returned block (C01)
 	void check_new_block(uintptr_t p, size_t req, size_t skip_index) {
 		size_t want = req ? req : 1;
-		size_t gs = pool().get_size((void *)p);
+		size_t gs = p_get_size((void *)p);
 		if(gs < want) fail("C01", "too-small", "get_size() = " + std::to_string(gs) + " for a request of " + std::to_string(req));
 		if(!region_of(p, gs)) fail("C01", "outside-mapped-memory", "block [arena+" + std::to_string(p - (uintptr_t)arena_base) + ", +" + std::to_string(gs) + ") is not inside memory the pool currently holds from its policy");
 		size_t al = 8; while(al < want && al < Policy::pagesize) al <<= 1;
@@ -350,7 +357,7 @@ struct SlabHarness : HarnessBase {
 	void do_alloc(size_t req, bool via_realloc, int fail_at) {
 		if(fail_at >= 0) { canon_before.clear(); canon(canon_before); }
 		begin_op(fail_at);
-		void *p = via_realloc ? pool().realloc(nullptr, req) : pool().allocate(req);
+		void *p = via_realloc ? p_realloc(nullptr, req) : p_allocate(req);
 		bool failed = fail_at >= 0 && PS.maps_this_op > fail_at;
 		end_op("allocate", true, req, p != nullptr);
 		if(fail_at >= 0) {
@@ -367,7 +374,7 @@ struct SlabHarness : HarnessBase {
 		}
 		if(!p) fail("C01", "null-without-failure", "allocate returned null although map() did not fail");
 		check_new_block((uintptr_t)p, req, (size_t)-1);
-		Block b{(uintptr_t)p, req, pool().get_size(p), pool().get_size(p) > max_small};
+		Block b{(uintptr_t)p, req, p_get_size(p), p_get_size(p) > max_small};
 		if(poisoning) check_unpoisoned(b);
 		fill(b);
 		live.push_back(b);
@@ -386,7 +393,7 @@ struct SlabHarness : HarnessBase {
 		PS.reenter = [this, victim] { pool().free((void *)victim.p); };
 		struct Clear { SlabHarness *h; ~Clear() { PS.reenter = nullptr; PS.reentered = false; h->reentrant_freed = Block{0, 0, 0, false}; } } clear{this};
 		begin_op(fail_at);
-		void *p = pool().allocate(req);
+		void *p = p_allocate(req);
 		bool failed = fail_at >= 0 && PS.maps_this_op > fail_at;
 		bool did = PS.reentered;
 		if(did && !victim.large) { auto it = slabs_of.find(victim.size); (void)it; }
@@ -403,7 +410,7 @@ struct SlabHarness : HarnessBase {
 		}
 		if(!p) fail("C01", "null-without-failure", "allocate returned null although map() did not fail");
 		check_new_block((uintptr_t)p, req, (size_t)-1);
-		Block b{(uintptr_t)p, req, pool().get_size(p), pool().get_size(p) > max_small};
+		Block b{(uintptr_t)p, req, p_get_size(p), p_get_size(p) > max_small};
 		if(poisoning) check_unpoisoned(b);
 		fill(b);
 		live.push_back(b);
@@ -420,7 +427,7 @@ struct SlabHarness : HarnessBase {
 		bool large = b.large;
 		uintptr_t rbase = rg ? rg->base : 0;
 		begin_op(-1);
-		if(sized) pool().deallocate((void *)b.p, b.req); else pool().free((void *)b.p);
+		if(sized) p_deallocate((void *)b.p, b.req); else p_free((void *)b.p);
 		end_op("free", false, 0, false);
 		if(large) { if(PS.regions.count(rbase)) fail("C03", "protocol:large-not-unmapped", "freeing a large block did not return its region"); }
 		else {
@@ -438,7 +445,7 @@ struct SlabHarness : HarnessBase {
 			memset((void *)old.p, 0, old.req);
 			live.erase(live.begin() + i);
 			begin_op(-1);
-			void *r = pool().realloc((void *)old.p, 0);
+			void *r = p_realloc((void *)old.p, 0);
 			end_op("realloc(p,0)", false, 0, false);
 			if(r) fail("C02", "realloc-zero-nonnull", "realloc(p, 0) returned a non-null pointer");
 			if(old.large && region_of(old.p, 1)) fail("C03", "protocol:large-not-unmapped", "realloc(p,0) of a large block did not return its region");
@@ -448,7 +455,7 @@ struct SlabHarness : HarnessBase {
 		if(fail_at >= 0) { canon_before.clear(); canon(canon_before); }
 		begin_op(fail_at);
 		exempt = i;
-		void *r = pool().realloc((void *)old.p, n);
+		void *r = p_realloc((void *)old.p, n);
 		bool failed = fail_at >= 0 && PS.maps_this_op > fail_at;
 		// for the accounting: a moving realloc takes a region on behalf of the new request
 		size_t regions_before_unmap = PS.returned.size();
@@ -462,14 +469,14 @@ struct SlabHarness : HarnessBase {
 			fails_used--; std::string after; canon(after); fails_used++;
 			if(after != canon_before) fail(g_fail_prop, "state-changed-after-failed-realloc", "pool state differs after a realloc that failed in map()");
 			verify_patterns("failed-realloc");   // includes the source block
-			if(pool().get_size((void *)old.p) != old.size) fail(g_fail_prop, "source-size-changed", "the source block's size changed after a failed realloc");
+			if(p_get_size((void *)old.p) != old.size) fail(g_fail_prop, "source-size-changed", "the source block's size changed after a failed realloc");
 			return;
 		}
 		if(!r) fail("C01", "null-without-failure", "realloc returned null although map() did not fail");
 		size_t keep = std::min(old.req, n);
 		if((uintptr_t)r == old.p) {
 			if(PS.returned.size() || PS.taken.size()) fail("C02", "realloc-inplace-mapped", "an in-place realloc mapped or unmapped memory");
-			size_t gs = pool().get_size(r);
+			size_t gs = p_get_size(r);
 			if(gs != old.size) fail("C01", "size-changed", "get_size() of a live block changed across an in-place realloc");
 			if(gs < n) fail("C01", "too-small", "in-place realloc result is smaller than requested");
 			for(size_t k = 0; k < keep; k++) if(((unsigned char *)r)[k] != pat(old.p + k)) fail("C02", "realloc-content", "in-place realloc changed the first min(old,new) bytes");
@@ -481,7 +488,7 @@ struct SlabHarness : HarnessBase {
 			for(size_t k = 0; k < keep; k++) if(((unsigned char *)r)[k] != pat(old.p + k)) fail("C02", "realloc-content", "moved realloc result does not start with the old contents (offset " + std::to_string(k) + ")");
 			// the old block must have been released: large -> region gone; small -> poisoned again / reusable
 			if(old.large && region_of(old.p, 1)) fail("C02", "realloc-old-not-freed", "realloc moved a large block but did not return the old region");
-			Block nb{(uintptr_t)r, n, pool().get_size(r), pool().get_size(r) > max_small};
+			Block nb{(uintptr_t)r, n, p_get_size(r), p_get_size(r) > max_small};
 			live[i] = nb;
 			if(poisoning) check_unpoisoned(nb);
 			fill(nb);
@@ -507,7 +514,7 @@ struct SlabHarness : HarnessBase {
 		// sizes stable, blocks inside mapped memory, pairwise disjoint, patterns intact
 		for(size_t a = 0; a < live.size(); a++) {
 			auto &b = live[a];
-			if(pool().get_size((void *)b.p) != b.size) fail("C01", "size-changed", "get_size() of a live block changed");
+			if(p_get_size((void *)b.p) != b.size) fail("C01", "size-changed", "get_size() of a live block changed");
 			if(!region_of(b.p, b.size)) fail("C01", "outside-mapped-memory", "a live block is no longer inside mapped memory");
 			for(size_t c = a + 1; c < live.size(); c++) if(b.p < live[c].p + live[c].size && live[c].p < b.p + b.size) fail("C01", "overlap", "two live blocks overlap");
 			if(poisoning) check_unpoisoned(b);
@@ -515,9 +522,9 @@ struct SlabHarness : HarnessBase {
 		verify_patterns("state");
 		// free(nullptr) / deallocate(nullptr, n) are no-ops
 		int m = PS.maps, u = PS.unmaps; size_t used = pool().numUsedPages();
-		asan_close(); pool().free(nullptr); pool().deallocate(nullptr, 16); asan_open();
+		asan_close(); p_free(nullptr); p_deallocate(nullptr, 16); asan_open();
 		if(PS.maps != m || PS.unmaps != u || pool().numUsedPages() != used) fail("C02", "free-null-not-noop", "free(nullptr)/deallocate(nullptr) changed the pool");
-		if(pool().get_size(nullptr) != 0) fail("C02", "get_size-null", "get_size(nullptr) != 0");
+		if(p_get_size(nullptr) != 0) fail("C02", "get_size-null", "get_size(nullptr) != 0");
 		raise_pending();
 		// large regions <-> live large blocks
 		size_t nlarge = 0; for(auto &b : live) if(b.large) nlarge++;
@@ -554,9 +561,9 @@ using CfgDefA   = ArenaPolicy<4096, 1 << 18, 1 << 18, 13, true, true>;   // defa
 using CfgDefU   = ArenaPolicy<4096, 1 << 18, 1 << 18, 13, false, false>;
 
 template<class Cfg>
-static Instance slab_inst(const std::string &name, int L, size_t skew, int fails, std::vector<size_t> sizes, int depth = 1 << 30, bool reentrant = false) {
+static Instance slab_inst(const std::string &name, int L, size_t skew, int fails, std::vector<size_t> sizes, int depth = 1 << 30, bool reentrant = false, bool facade = false) {
 	BfsOptions o; o.max_depth = depth;
-	return bfs_instance<SlabHarness<Cfg>>(name, o, L, skew, fails, sizes, reentrant);
+	return bfs_instance<SlabHarness<Cfg>>(name, o, L, skew, fails, sizes, reentrant, facade);
 }
 
 // Size sweep (engine C): from a few base states every request size from 0 up to 3 superblocks + 1 page
@@ -719,6 +726,8 @@ static std::vector<Instance> instances(const std::string &tier) {
 		IN2(v.push_back(slab_inst<CfgSplit>("split-fix-16-300-513-L2" + sfx, 2, 0, F, {16, 300, 513}, FIX));)
 		IN2(v.push_back(slab_inst<CfgOdd>("odd-fix-8-8192-8193-L2" + sfx, 2, 0, F, {8, 8192, 8193}, FIX));)
 	}
+	// the same calls through frg::slab_allocator
+	IN0(v.push_back(slab_inst<CfgTinyA>("tinyA-L3-through-slab_allocator" + sfx, 3, 0, F, {0, 9, 1024, 1025}, th ? 5 : 4, false, true));)
 	// depth-capped runs over the full size alphabets
 	IN0(v.push_back(slab_inst<CfgTinyA>("tinyA-L3" + sfx, 3, 0, F, tiny, D));)
 	IN0(v.push_back(slab_inst<CfgTinyA>("tinyA-L4" + sfx, 4, 0, F, tiny, D));)
